@@ -310,10 +310,10 @@ func (p *Parser) ParseUnaryExpression() ast.Expression {
 		Operator: p.CurrentToken.Literal,
 	}
 	p.NextToken()
-	operandToken := p.CurrentToken
 	expression.Right = p.expressionParseFn(p, UNARY)
 	if (expression.Token.Type == token.INCREMENT || expression.Token.Type == token.DECREMENT) && !isUpdateTarget(expression.Right) {
-		p.AddErrorAtToken("invalid increment/decrement operand", operandToken)
+		// reported where the operand ends: what precedes may be intact (`++a(c) d` for `++a(c).d`)
+		p.AddError("invalid increment/decrement operand")
 	}
 	return expression
 }
